@@ -44,6 +44,39 @@ def hier(idx, prog):
     return all(seg_ok(lambda st, k: k in st or all(idx[j] < idx[k] for j in st), seg) for seg in prog)
 
 
+def static_rank(idx, progs):
+    """rank per key from a topological order of the static lock-order graph (held slot -> requested slot over all
+    nested operations of all programs); None if that graph has a cycle (then no `ord` with Hier ord exists)"""
+    edges, nodes = set(), set(idx)
+    for prog in progs:
+        for seg in prog:
+            st = []
+            for ins in seg:
+                if ins[0] in ("gs", "rmv"):
+                    k = ins[1]
+                    if k not in st:
+                        for j in st:
+                            if idx[j] == idx[k]:
+                                return None
+                            edges.add((idx[j], idx[k]))
+                    if ins[0] == "gs":
+                        st.append(k)
+                elif ins[0] == "exit":
+                    if st:
+                        st.pop()
+                elif ins[0] == "raise":
+                    break
+    rank, remaining = {}, set(nodes)
+    while remaining:
+        free = sorted(n for n in remaining if not any(a in remaining and b == n for a, b in edges))
+        if not free:
+            return None
+        for n in free:
+            rank[n] = len(rank)
+        remaining -= set(free)
+    return [rank[i] for i in idx]
+
+
 class C19(Property):
     id = "C19"
     prop_modules = ["CobaVerif.Props.C19"]
@@ -167,7 +200,10 @@ class C19(Property):
             sched = {"mode": "rand"}
         else:
             sched = {"mode": "pb", "switch": [rng.randint(1, 18) for _ in range(rng.randint(0, 5))]}
-        return {"kind": "sched", "keys": keys, "progs": progs, "parts": parts, "seed": rng.below(2 ** 32), "sched": sched}
+        case = {"kind": "sched", "keys": keys, "progs": progs, "parts": parts, "seed": rng.below(2 ** 32), "sched": sched}
+        if rng.chance(0.2):
+            case["inner"] = "disk"
+        return case
 
     def gen_disk_case(self, rng, tier):
         L1 = [rng.choice(["a,b,c", "1", "", "xyz" * rng.randint(1, 6), "été"]) for _ in range(rng.randint(1, 3))]
@@ -261,6 +297,12 @@ class C19(Property):
                        "progs": [[[["gs", 0, 1], ["exit"]], [["rmv", 0, "fail"]], [["rmv", 0]]], [[["gs", 0, 2], ["exit"]], [["rmv", 0, "fail"]], [["gs", 0, 3], ["exit"]]]]})
             cs.append({"kind": "sched", "keys": [p0, p1], "parts": 1, "seed": sw, "sched": {"mode": "pb", "switch": [sw, 6]},
                        "progs": [[[["gs", 0, 1], ["exit"]], [["gs", 1, 4], ["rmv", 0, "fail"]]], [[["gs", 1, 2], ["exit"], ["rmv", 0, "fail"], ["rmv", 1]]]]})
+        # the unlocked `in` of rmv sees a half-written DiskCacher file (Lean: partial_file_seen_by_rmv): all switch points
+        for sw in range(4, 22):
+            cs.append({"kind": "sched", "inner": "disk", "keys": ["a"], "parts": 2, "seed": sw, "sched": {"mode": "pb", "switch": [sw, 5]},
+                       "progs": [[[["gs", 0, 1]]], [[["rmv", 0]]]]})
+            cs.append({"kind": "sched", "inner": "disk", "keys": ["a"], "parts": 2, "seed": sw, "sched": {"mode": "pb", "switch": [sw, 3]},
+                       "progs": [[[["gs", 0, None, 1]], [["gs", 0, 2], ["exit"]]], [[["rmv", 0]], [["gs", 0, 3], ["exit"]]]]})
         # re-entrant read, rmv of a key being read by the same caller (documented CobaException), body raising in a nest
         cs.append({"kind": "sched", "keys": ["a", "b"], "parts": 2, "seed": 1, "sched": rnd,
                    "progs": [[[["gs", 0, 1], ["gs", 0, 2], ["exit"], ["rmv", 0]]], [[["gs", 0, 3], ["exit"]], [["rmv", 0]]]]})
@@ -356,18 +398,20 @@ class C19(Property):
         progs = case["progs"]
         wn = all(well_nested(idx, p) for p in progs)
         hr = all(hier(idx, p) for p in progs)
+        ordk = static_rank(idx, progs)       # acyclic static lock order (weaker than Hier): deadlock_free_ranked applies
         repaired = bool(res.get("repaired"))
         if repaired:
             # with fixes/C19-nested-write-wait-raises.diff deadlock freedom is proved for all programs (deadlock_free_repaired)
             tags.append("code:repaired-nested-write-wait")
             in_q, hr_eff = True, True
         else:
-            in_q, hr_eff = wn, hr
+            in_q, hr_eff = wn, hr or (wn and ordk is not None)
         tags.append("threads:%d" % len(progs))
         tags.append("keys:%d" % len(case["keys"]))
         tags.append("collide" if len(set(idx)) < len(idx) else "nocollide")
         tags.append("sched:" + (case.get("sched") or {}).get("mode", "rand"))
-        tags.append("quantifier:" + ("hier" if wn and hr else "wellnested-only" if wn else "outside"))
+        tags.append("inner:" + case.get("inner", "memory"))
+        tags.append("quantifier:" + ("hier" if wn and hr else "ranked-lock-order" if wn and ordk is not None else "wellnested-only" if wn else "outside"))
         tags.append("status:" + res["status"])
         kinds = {}
         for t, e in res["events"]:
@@ -375,6 +419,15 @@ class C19(Property):
         for k in ("spin", "sw", "cpopFail", "crmv", "crmvFail", "raiseBody", "cget"):
             if kinds.get(k):
                 tags.append("ev:" + k)
+        inflight = {}
+        for t, e in res["events"]:
+            if e[0] == "ccreate":
+                inflight[e[1]] = t
+            elif e[0] in ("cpop", "cpopFail"):
+                inflight.pop(e[1], None)
+            elif e[0] == "contains" and e[2] is True and e[1] in inflight and inflight[e[1]] != t:
+                tags.append("unlocked-in-saw-partial-file")
+                break
         if any(o == "rmv-while-reading:CobaException" for os_ in res["outcomes"] for o in os_):
             tags.append("rmv-while-reading")
         if any(o == "nested-write-refused:CobaException" for os_ in res["outcomes"] for o in os_):
@@ -439,7 +492,8 @@ class C19(Property):
         model = None
         if driver is not None and not [f for f in fails if f["sig"] != "hang-nested-lock-order"] and not base_leak:
             sched = [t for t, e in res["events"]]
-            ans = driver.ask({"op": "replay", "idx": idx, "repaired": repaired,
+            sees = [bool(e[0] == "contains" and e[2] is True) for t, e in res["events"]]
+            ans = driver.ask({"op": "replay", "idx": idx, "repaired": repaired, "sees": sees, "ord": ordk if ordk is not None else [0] * len(idx),
                               "progs": [[[lean_instr(i) for i in seg] for seg in p] for p in progs], "sched": sched})
             model = {"events": len(ans["events"]), "stuck": ans["stuck"], "arr": ans["arr"], "terminal": ans["terminal"]}
             mev = ans["events"]
@@ -482,7 +536,11 @@ class C19(Property):
             # (C) the theorems' conclusions on the model's own final state
             if all(ans["terminal"]) and (any(x != 0 for x in ans["arr"]) or any(v != 0 for b in ans["book"] for v in b)):
                 fails.append(F("C", "model: all callers terminal but locks remain %s %s" % (ans["arr"], ans["book"]), "C:locks-released"))
-            if ans["stuck"] is None and (ans["runN_arr"] != ans["arr"] or ans["runN_terminal"] != all(ans["terminal"])):
+            if ans.get("spuriousIn"):
+                fails.append(F("A", "the unlocked `in` of rmv answered True at step(s) %s although the model has the key neither cached nor being written"
+                               % ans["spuriousIn"][:4], "A:unlocked-in-sees-uncached"))
+            seen_partial = any(e[0] == "contains" and e[2] is True for t, e in res["events"]) and case.get("inner") == "disk"
+            if ans["stuck"] is None and not seen_partial and (ans["runN_arr"] != ans["arr"] or ans["runN_terminal"] != all(ans["terminal"])):
                 fails.append(F("C", "model: runN and run disagree %s %s" % (ans["runN_arr"], ans["arr"]), "C:runN"))
             if ans["deadlocked"] and not any(e[0] == e[1] for e in ans["waitEdges"]):
                 # deadlock_has_cycle: follow successors from any node until a repetition
@@ -495,6 +553,12 @@ class C19(Property):
                     node = succ.get(node)
                 if node is None:
                     fails.append(F("C", "model: deadlocked state without a wait-for cycle %s" % ans["waitEdges"], "C:cycle"))
+            if ordk is not None and not all(ans["hierRanked"]):
+                fails.append(F("C", "the rank computed from the static lock-order graph does not satisfy Hier ord in the model: %s" % ordk, "C:ranked"))
+            if all(ans["hier"]) and ordk is None:
+                fails.append(F("C", "model says Hier but the static lock-order graph has a cycle", "C:ranked"))
+            if ordk is not None and all(ans["wellNested"]) and (ans["deadlocked"] or any(e[0] == e[1] for e in ans["waitEdges"])):
+                fails.append(F("C", "model: acyclic static lock order but deadlocked / self wait edge %s" % ans["waitEdges"], "C:ranked-deadlock"))
             if (repaired or (all(ans["wellNested"]) and all(ans["hier"]))) and ans["deadlocked"]:
                 fails.append(F("C", "model: deadlocked although the theorem's hypotheses hold", "C:deadlock-free"))
             if all(ans["wellNested"]) and all(ans["hier"]) and not all(ans["terminal"]) and ans["stuck"] is None:
